@@ -1,4 +1,5 @@
 import Bclv.Proofs.BindRT
+import Bclv.Proofs.BindNest3
 import Bclv.Props.C15
 /-!
 # C05 — Unmarshal reproduces configuration values in Go structs
@@ -11,6 +12,16 @@ This file is the binder half, on the model of `Model/Bind.lean`:
   exported fields of a flat struct with values of those fields' types succeeds and leaves
   exactly those values in those fields, every other field untouched — for every such
   struct type, every value, every admitted spelling, every order of the entries;
+* `roundtrip_nested` (from `Proofs/BindNest1…3`): the round trip at the strength of the
+  property.  `famTy` is the family of shapes (exported fields of the four basic kinds or of
+  struct types of the family again; no embedded fields, no tags, no two names alike under the
+  rule); `Renders n ty g blk` says that the block writes down the value `g` — every field
+  exactly once, in any order and any admitted spelling, a struct field as a child block that
+  renders the field's value, the block's name being the value of the field the rule takes for
+  `Name`.  Binding such a block onto *any* target of the type succeeds and leaves exactly `g`
+  (so the result is deeply equal to the value written down, whatever the target held);
+  `roundtrip_slice`: a slice target gets one element per block, in order, each exactly the
+  rendered value, the previous elements discarded;
 * `roundtrip_entries`: the same for arbitrary struct types (tags, embedded structs, …)
   stated on what the field lookup returns;
 * `matching_rule`: a key matches a field name iff they are equal ignoring case and
@@ -94,6 +105,82 @@ theorem slice_replaces (elem : Ty) (v v' : GV) (blks : List Block)
       | err _ _ => simp at h
       | panic => simp at h
   | _ => simp at h
+
+/-- **Round trip, nested structs**: see the header. -/
+theorem roundtrip_nested (n : Nat) (ty : Ty) (g v0 : GV) (blk : Block) (hfam : famTy ty)
+    (hg : HasTy g ty) (hv0 : HasTy v0 ty) (hr : Renders n ty g blk) :
+    Bclv.Bind.bind (.pointer ty v0) (some (.struct blk)) = .ok g :=
+  bind_struct_roundtrip n ty g v0 blk hfam hg hv0 hr
+
+/-- **Round trip, slice target**. -/
+theorem roundtrip_slice (elem : Ty) (v0 : GV) (blks : List Block) (gs : List GV) (hfam : famTy elem)
+    (hstruct : ∃ id sn fs, elem = .struct id sn fs)
+    (h : Pairs (fun b g => HasTy g elem ∧ ∃ n, Renders n elem g b) blks gs) :
+    Bclv.Bind.bind (.pointer (.slice elem) v0) (some (.slice blks)) = .ok (.slice (GVs.ofList gs)) :=
+  bind_slice_roundtrip elem v0 blks gs hfam hstruct h
+
+/-! non-vacuity of the nested round trip: `def srv "m" { tls { on = true }; port = 80 }` into
+`struct Srv { Name string; Port int; Tls struct { On bool } }` -/
+
+def inTy : Ty := .struct 2 [] (.cons { name := "On".toList } (.basic .bool) .nil)
+def exTy : Ty := .struct 1 "Srv".toList
+  (.cons { name := "Name".toList } (.basic .str) (.cons { name := "Port".toList } (.basic .int)
+    (.cons { name := "Tls".toList } inTy .nil)))
+def exG : GV := .struct (.cons (.str [109]) (.cons (.int 80) (.cons (.struct (.cons (.bool true) .nil)) .nil)))
+-- def srv "m" { tls { on = true }; port = 80 }
+def exBlk : Block := .mk [115, 114, 118] [109]
+  (.child [116, 108, 115] (.mk [116, 108, 115] [] (.val [111, 110] (.bool true) .nil)) (.val [112, 111, 114, 116] (.int 80) .nil))
+
+theorem distinct_in : DistinctNames (.cons { name := "On".toList } (.basic .bool) .nil) := by
+  intro j j' h h' t t' hne hj hj'
+  rcases j with _ | j <;> rcases j' with _ | j' <;> simp [TFields.get?] at hj hj' hne
+
+theorem distinct_ex : DistinctNames (.cons { name := "Name".toList } (.basic .str) (.cons { name := "Port".toList } (.basic .int)
+    (.cons { name := "Tls".toList } inTy .nil))) := by
+  intro j j' h h' t t' hne hj hj'
+  rcases j with _ | _ | _ | j <;> rcases j' with _ | _ | _ | j' <;> simp [TFields.get?] at hj hj' hne <;>
+    (obtain ⟨rfl, _⟩ := hj; obtain ⟨rfl, _⟩ := hj'; decide)
+
+theorem exTy_fam : famTy exTy := by
+  simp only [exTy, inTy, famTy, famFs, flat]
+  refine ⟨by decide, distinct_ex, ?_⟩
+  simp
+  exact distinct_in
+
+def exIdx : Item → Nat | .val _ _ => 1 | .child _ _ => 2
+def exVal : Item → GV | .val _ _ => .int 80 | .child _ _ => .struct (.cons (.bool true) .nil)
+
+theorem exRenders : Renders 2 exTy exG exBlk := by
+  simp only [exTy, exBlk, Renders]
+  refine ⟨.inr (by decide), exIdx, exVal, by decide, by decide, ?_, ?_⟩
+  · refine .inr ⟨0, { name := "Name".toList }, rfl, by decide, rfl, by decide, ?_⟩
+    intro j h t hj
+    rcases j with _ | _ | _ | j <;> simp [TFields.get?, Fields.items, exIdx] at hj ⊢
+  · intro it hit
+    simp only [Fields.items, List.mem_cons, List.not_mem_nil, or_false] at hit
+    rcases hit with rfl | rfl
+    · refine ⟨{ name := "Tls".toList }, inTy, rfl, by decide, rfl, ?_⟩
+      simp only [inTy, exVal, Renders]
+      refine ⟨by simp, fun _ => 0, fun _ => .bool true, by decide, by decide, ?_, ?_⟩
+      · refine .inl ⟨?_, rfl, ?_⟩
+        · intro j h t hj
+          rcases j with _ | j <;> simp [TFields.get?] at hj
+          obtain ⟨rfl, _⟩ := hj; decide
+        · intro j h t hj
+          rcases j with _ | j <;> simp [TFields.get?, Fields.items] at hj ⊢
+      · intro it hit
+        simp only [Fields.items, List.mem_cons, List.not_mem_nil, or_false] at hit
+        subst hit
+        exact ⟨{ name := "On".toList }, .basic .bool, rfl, by decide, rfl, by decide, rfl⟩
+    · exact ⟨{ name := "Port".toList }, .basic .int, rfl, by decide, rfl, by decide, rfl⟩
+
+/-- the theorem applied, and the model evaluated, on `def srv "m" { tls { on = true }; port = 80 }` -/
+example : Bclv.Bind.bind (.pointer exTy (zero exTy)) (some (.struct exBlk)) = .ok exG :=
+  bind_struct_roundtrip 2 exTy exG _ exBlk exTy_fam (by
+    simp only [exG, exTy, inTy]
+    repeat constructor) (zero_hasTy _) exRenders
+example : Bclv.Bind.bind (.pointer exTy (zero exTy)) (some (.struct exBlk)) = .ok exG := by rfl
+
 
 /-! non-vacuity: a concrete flat struct and block satisfy the hypotheses of the round trip -/
 
